@@ -13,7 +13,7 @@ globals().update(make(
     'output size was split across two output batches (a batch in progress coexisted with unpacked input left) while '
     'the consumer was blocked; distinct = SHA-1 of the canonical spec JSON.',
     lambda mon, case: any(b['emitted'] >= 2 for b in mon.bat.values()) and mon.c['handovers_after_block'] > 0,
-    None, quick=(400, 4), thorough=(2000, 16)))
+    None, quick=(550, 4), thorough=(2000, 16)))
 
 
 # "a batch's routing history updates are applied to all parts it contains" also holds for batches that travel inside other
